@@ -2,7 +2,6 @@ package engine
 
 import (
 	"fmt"
-	"sync/atomic"
 
 	"verif/mc/spec"
 )
@@ -88,7 +87,7 @@ func v3bg(ver *spec.Version) spec.Assignment {
 func sweepV3[T comparable, P Object[T]](r *Report, im *Impl[T, P]) {
 	ver := im.Ver
 	is31 := ver == spec.V31
-	var nontrivial, altDiff, amb atomic.Int64
+	var nontrivial, altDiff, amb Counter
 	Iterate(im, v3ClassDims(ver), v3bg(ver), 16, func(idx int, a spec.Assignment, o *T) {
 		if key, exp, obs := v3CheckObj(im, a, o); key != "" {
 			ac := a.Clone()
@@ -103,13 +102,13 @@ func sweepV3[T comparable, P Object[T]](r *Report, im *Impl[T, P]) {
 		}
 		w := spec.V3Score(v3ClassOf(a), is31)
 		if w.Env != w.Base {
-			nontrivial.Add(1)
+			nontrivial.Add(idx, 1)
 		}
 		if w.Env != w.EnvAlt || w.Base != w.BaseAlt || w.Temporal != w.TemporalAlt {
-			altDiff.Add(1)
+			altDiff.Add(idx, 1)
 		}
 		if w.Ambiguous {
-			amb.Add(1)
+			amb.Add(idx, 1)
 		}
 	}, func(a spec.Assignment, why string) {
 		r.Violation(Case{Kind: "v3-score", Key: "v" + ver.Name + "/score/cannot-build", Expected: "object built by Set reads back", Observed: why, Args: map[string]any{"version": ver.Name, "vector": ver.Full(a)}}, nil)
